@@ -312,7 +312,9 @@ def run(tier, seed, replay=None):
     ck.rule = ("seeded random programs over 4 names mixing spmatrix and matrix objects; every step validated by TLC (CCSValid, kind, dense "
                "image, identity, pinned patterns); distinct = distinct (operation kind, index kinds, operand kinds, outcome)")
     ck.trusted = ["TLC", "spmatrix.CCS as the observation of the compressed-column arrays"]
-    ck.assumptions = ["integer-valued data; base.gemv/gemm/syrk/symv/axpy with sparse operands, V assignment and size change are covered by C17/C19 drivers, not here"]
+    ck.assumptions = ["integer-valued data; V assignment and size change are not in the program generator",
+                      "base.gemv/symv with a sparse A and a block that leaves the rows/columns of A (outside the documented requirement "
+                      "m <= A.size[0] - offsetA % A.size[0]) are 'unspecified'; for base.syrk with a sparse C and partial=False only the uplo triangle is compared"]
     r = tlc.run_tlc("MC_DenseMatrix", c15.MC_CFG % 3, tlc.workdir("c16/design"), timeout=900)
     if not ck.require_tlc_ok("MC_DenseMatrix box exploration (dense semantics shared with SparseCCS)", r):
         ck.finish()
@@ -366,4 +368,9 @@ def run(tier, seed, replay=None):
                     l, json.dumps(ev["op"])[:160], clause), {"trace": tr[max(0, l - 3):l], "failed": [l, clause]})
     if traces:
         ck.sample({"trace": traces[0][:3]})
+    # the mixed sparse/dense products used by the solvers: base.gemv / symv / gemm / syrk / axpy (incl. partial=True), specified in Blas.tla
+    # (SPGEMV, SPSYMV, SPGEMM, SPSYRK, SPAXPY) on dense images; random calls run in crash-isolated children and TLC decides every call
+    from harness.checks import c17
+    ncalls = c17.run_base_products(ck, seed, 60 if quick else 2500)
+    ck.traces += ncalls
     ck.finish()
